@@ -62,9 +62,9 @@ package resource_division
 //@ define keyedByUID(qs map[common_info.QueueID]*rs.QueueAttributes) bool = forall k in qs :: qs[k] != nil && qs[k].UID == k
 //@ define weightsNonNeg(qs map[common_info.QueueID]*rs.QueueAttributes, r rs.ResourceName) bool = forall k in qs :: weight(qs[k], r) >= 0.0
 
-// total over-quota weight of the unsatisfied queues: stated without the fold (no sum in the
-// spec language): non-negative, dominates every unsatisfied queue's weight, zero iff all such
-// weights are zero.
+// total over-quota weight of the unsatisfied queues: non-negative, dominates every unsatisfied queue's
+// weight, zero iff all such weights are zero (helper "c09"); (helper "c09b") [closedForm]: it IS the fold
+// sum k in queues :: ite(satisfied(k), 0, weight(k)).
 // (helper "c09b") closed form of the fold: the SUM over the siblings of the over-quota weight of the unsatisfied ones
 //@ define unsatW(q *rs.QueueAttributes, r rs.ResourceName) real = ite(satisfied(q, r), 0.0, weight(q, r))
 //@ define totalUnsatW(qs map[common_info.QueueID]*rs.QueueAttributes, r rs.ResourceName) real = sum k in qs :: unsatW(qs[k], r)
@@ -278,8 +278,22 @@ package resource_division
 // rounding unit": by nothing at all in this phase), nothing is taken back (remaining <= total), other
 // resources / other queues are untouched, and every rounding remainder recorded for the remainder
 // phase belongs to a still unsatisfied queue of this level and is < 1 unit.
-// NOT proved here (needs a sum over the visited queues, which the spec language cannot express):
-// remaining >= 0 ("the surplus handed out never exceeds what is left").
+// (helper "c09b", finite sums) C09 "the surplus handed out never exceeds what is left after deserved quotas":
+//  [conservation]  sum of the siblings' shares + what is left == the same before + the amount to divide (every unit taken
+//                  from the counter went into exactly one sibling's share, every round, every iteration order);
+//  [neverNegative] the counter never goes below 0 (per round: what a queue gets is <= its round share A*(w_k/S), the round
+//                  shares of all siblings add up to A because the normalised weights w_k/S add up to 1);
+//  C09 "surplus stays undistributed only if every queue with positive effective over-quota weight is satisfied" and
+//  "while a higher over-quota priority is unsatisfied, lower priorities receive at most its rounding remainder (less than
+//  one unit per higher-priority queue)":
+//  [priorityLaw]   what this level leaves (= what the next lower priority gets to divide) is 0, or no unsatisfied sibling
+//                  has a positive effective weight (noClaimant: then everything is passed down), or it is < 1 unit per
+//                  still-unsatisfied sibling with non-zero over-quota weight (the floor() remainders of the last round).
+//                  Needs kValue >= 0 (proportion.New clamps it) and usages >= 0: otherwise a sibling with weight 0 can get a
+//                  positive share weight, is skipped by the rounds, and its share of the surplus is silently passed down.
+// Order-independence of the weighted rounds is NOT stated as a functional postcondition (the result is a fixpoint over an
+// unbounded number of rounds; the state at the head of a round cannot be named in an inner-loop invariant); every clause
+// above is proved for every iteration order (the key picked by each range step is arbitrary).
 // (helper "c09b") round share of queue k: the code's `amountToGiveInCurrentRound * (shareWeightsPerQueue[k] / shareWeightsSum)`, and its sum
 //@ define roundShare(m map[common_info.QueueID]float64, k common_info.QueueID, A real, S real) real = A * (m[k] / S)
 // normalised weights of a round add up to 1 (engine: sums are linear in a factor that does not depend on the key)
@@ -387,6 +401,11 @@ package resource_division
 // NOT proved: "every queue receives at most ONE unit" (invariants `pqNoDup(sortedQueues)` + `every record
 // still in the heap is ungained` + `gain <= 1`; the preservation queries through the trusted Pop contract
 // ([removedOnce], [noNewDuplicates]) are not decided by any solver within 120 s), see report.
+// (helper "c09b") [exactRemainder]: with n = number of records of the table, exactly min(total, n) is handed out (one unit per
+// popped record, the last one possibly a fraction), i.e. remaining == max(total - n, 0): C09 "surplus stays undistributed
+// only if ..." for this phase = only when every recorded queue has received its unit. NOT proved: the exact conservation
+// over the table's queues (the key of the popped record is never used as a map key by the code, so the sum over the table
+// cannot be split at it: no way to name a body-local value in an invariant).
 //@ func divideRemainingResource
 //@   props C09
 //@   requires validRes(resourceName) && totalResourceAmount >= 0.0 && rrKeyed(remainingRequested)
@@ -422,8 +441,11 @@ package resource_division
 // order delivered by getQueuesByPriority; each level first gets its weighted rounds, then, while something
 // is left, the levels get their remainder hand-out in the same order). Proved per queue: shares only grow,
 // nothing is taken back, other resources / other queues untouched; both loops terminate.
-// NOT proved: "while a higher priority is unsatisfied, lower priorities receive at most its rounding
-// remainder" and remaining >= 0 (both need the sum of the shares handed out in divideUpToFairShare).
+// (helper "c09b") [neverNegative]: remaining >= 0 through all levels and both phases. The priority law is stated where it
+// is implemented (divideUpToFairShare [priorityLaw]: what a level passes down) and the levels are visited in the strictly
+// descending order of getQueuesByPriority. NOT proved here: the exact conservation over ALL siblings (it holds per level,
+// divideUpToFairShare [conservation]; adding the levels up needs a sum over a partition of the key set, which the sum
+// axioms - one-point splits only - do not give).
 //@ func divideOverQuotaResource
 //@   props C09
 //@   requires validRes(resourceName) && queuesOK(queues) && keyedByUID(queues) && weightsNonNeg(queues, resourceName)
